@@ -25,8 +25,10 @@ OPL reader:
  R2-utf8-encoder-table  append_codepoint_as_utf8: range thresholds and every emitted byte (bit-slice evaluation) equal
         the UTF-8 encoding table.
 XML writer:
- X1-xml-entity-table    append_xml_encoded_string's switch has a case for each of & < > " ' \\n \\r \\t, every case
-        appends one well-formed reference denoting its label, default copies the byte.
+ X1-xml-entity-table    append_xml_encoded_string: for each of & < > " ' \\n \\r \\t exactly one well-formed reference denoting that
+        character is appended in the iteration that processes it, every other byte is copied exactly once.  Decided on the
+        byte sets of the writes (dataflow), so a switch, an if/else-if chain, a named copy of the byte (`const char c = *data;`,
+        `*data++`), early continue, or a `const char* entity_for(char)` lookup helper are all the same to it.
  X2-xml-strings-escaped every object string (const char* accessor of an OSM data class, also when first bound to a local) and every
         header option written by the XML output classes goes through append_xml_encoded_string, or is a local that is only
         written when it equals a markup-free literal.
@@ -38,6 +40,11 @@ Bounded reads:
  N3-utf8-length-table   utf8_sequence_length partitions the first byte exactly like the UTF-8 lead byte table.
  N4-end-is-strlen       the end pointer given to next_utf8_codepoint is data + strlen(data) of the same string.
  U2-utf8-decode-assembly  each case of next_utf8_codepoint assembles exactly the payload bits of its bytes.
+
+Form independence: reader / XML byte sets come from a forward dataflow that follows named copies of the byte under the cursor,
+switch and if-chains alike, and summarises small pure helpers (`bool is_x(char)`, `const char* f(char)`) as if inlined; code point
+guards follow named boolean locals and `bool helper(uint32_t)` predicates; digit emitters may be helpers, written inline in the
+escaper, or counted loops (unrolled over their constant counter values).
 
 All clauses of DESIGN.md section 5/C14 are implemented; none was dropped.  Byte sets of the reader are computed by a forward
 dataflow over the CFG (c14_util.byte_states: exact truth sets of the tests on every path since the cursor last moved, union at
@@ -53,7 +60,7 @@ import functools
 
 from ..charset import (Bits, CODEPOINTS, EMPTY, ISet, Pred, Unsupported, char_truth_bytes, field_vec, int_type, never_modified, unique_def_resolver, ZERO, ONE, W)
 from ..c14_util import (BYTES, Broken, block_paths, byte_states, char_guard_set, char_leaf, char_aliases, cursor_lvalue, cursor_text, decisions, depends_on,
-                        elems_on, ends_in_throw, guards, is_current_char, is_var, lvalue_modifications, make_callee_summary, valid_copies,
+                        derived_helper, elems_on, ends_in_throw, forward_reach, guards, loop_iterations, helper_returns, input_byte_locals, is_current_char, set_fact_base, is_var, lvalue_modifications, make_callee_summary, valid_copies,
                         local_init, modifications, one, string_literal, string_out_calls, var_guard_set, vars_in)
 from ..flow import path_search
 
@@ -141,28 +148,34 @@ class WriterModel(object):
             raise Broken('%s: no local initialised from %s' % (WR, DECODE))
         if not never_modified(fn, self.d_c):
             raise Broken('%s: the decoded code point is modified after decoding' % WR)
-        self.verbatim, self.frames, self.emitters = [], [], []
+        self.verbatim, self.frames, self.emitters, self.digits = [], [], [], []
         for (n, kind) in string_out_calls(fn, self.d_out):
             args = [a for a in n.get('args', []) if a is not None]
             if kind == 'free':
                 args = args[1:]
             uses_c = any(self.d_c in vars_in(fn, a) for a in args)
+            ix = fn.sn(args[0]) if (kind == 'member' and len(args) == 1) else None
             if kind == 'free' and uses_c and n.get('q', '').startswith(NS):
                 self.emitters.append(n)
+            elif ix is not None and n.get('q') in STR_APPENDERS and uses_c and ix.get('k') == 'index' and string_literal(fn, ix['base']) is not None:
+                self.digits.append(n)         # a hex digit written inline: out += alphabet[<nibble of c>]
             elif kind == 'member' and n.get('q') in STR_APPENDERS and len(args) == 1 and fn.const_value(args[0]) is not None:
                 self.frames.append(n)
             elif kind == 'member' and n.get('q') in STR_APPENDERS and not uses_c and all(vars_in(fn, a) for a in args):
                 self.verbatim.append(n)
             else:
                 raise Broken('%s: unrecognised write to the output string: %s' % (WR, fn.expr(n['id'])))
-        if len(self.verbatim) != 1 or not self.emitters or not self.frames:
-            raise Broken('%s: expected one verbatim append, >=1 hex emitter calls and frame characters (found %d/%d/%d)'
-                         % (WR, len(self.verbatim), len(self.emitters), len(self.frames)))
+        if len(self.verbatim) != 1 or not (self.emitters or self.digits) or not self.frames:
+            raise Broken('%s: expected one verbatim append, >=1 hex emitter calls / inline digits and frame characters (found %d/%d+%d/%d)'
+                         % (WR, len(self.verbatim), len(self.emitters), len(self.digits), len(self.frames)))
         dom = CODEPOINTS
         res = unique_def_resolver(fn)
         callee = make_callee_summary(fb)
         self.P = var_guard_set(fn, self.verbatim[0]['id'], self.d_c, dom, res, callee)
         self.E = [(e, var_guard_set(fn, e['id'], self.d_c, dom, res, callee)) for e in self.emitters]
+        self.Edigits = EMPTY
+        for n in self.digits:
+            self.Edigits = self.Edigits | var_guard_set(fn, n['id'], self.d_c, dom, res, callee)
 
     def iteration_paths(self):
         """Event sequences of one loop iteration after the decode: [[('verbatim'|'frame'|'emit', node)...]...]"""
@@ -183,6 +196,8 @@ class WriterModel(object):
             ev[n['id']] = ('frame', n)
         for n in self.emitters:
             ev[n['id']] = ('emit', n)
+        for n in self.digits:
+            ev[n['id']] = ('digit', n)
         seqs = []
         for path in block_paths(fn, b0, heads):
             seqs.append([ev[e] for e in elems_on(fn, path, after=self.decl_c['id']) if e in ev])
@@ -414,7 +429,7 @@ def _o2(fb, R, wm, rm):
     # partition: every code point is passed or escaped through exactly one emitter
     allE = EMPTY
     overlap = EMPTY
-    for (_e, S) in wm.E:
+    for (_e, S) in wm.E + ([(None, wm.Edigits)] if wm.digits else []):
         overlap = overlap | (allE & S)
         allE = allE | S
     rest = CODEPOINTS - wm.P - allE
@@ -428,14 +443,18 @@ def _o2(fb, R, wm, rm):
     ok = True
     why = ''
     for seq in wm.iteration_paths():
-        kinds = [k for (k, _n) in seq]
+        kinds = []
+        for (k, _n) in seq:
+            k = 'emit' if k == 'digit' else k             # a run of inline digits is one numeral
+            if not (k == 'emit' and kinds and kinds[-1] == 'emit' and _n in wm.digits):
+                kinds.append(k)
         if kinds == ['verbatim']:
             continue
         if kinds != ['frame', 'emit', 'frame']:
             ok, why = False, 'an escaped code point is written as %s instead of introducer, hex numeral, terminator' % kinds
             break
         a = fn.const_value(seq[0][1]['args'][0]) & 0xff
-        b = fn.const_value(seq[2][1]['args'][0]) & 0xff
+        b = fn.const_value(seq[-1][1]['args'][0]) & 0xff
         if a != intro:
             ok, why = False, 'escape starts with %s but the reader enters opl_parse_escaped only on %s' % (_ch(a), _ch(intro))
             break
@@ -460,6 +479,23 @@ def _emitter_alphabet(wm, call):
     raise Broken('%s: digit alphabet literal of %s not found' % (WR, fn.expr(call['id'])))
 
 
+def _check_alphabet(R, rm, rule, key, site, lit, delim):
+    bad = None
+    if len(lit) < 16:
+        bad = 'alphabet %r has fewer than 16 entries' % lit
+    else:
+        for i in range(16):
+            b = ord(lit[i]) & 0xff
+            dv = rm.digit_value(b)
+            if dv != i:
+                bad = 'alphabet entry %d is %s, which the reader %s' % (i, _ch(b), 'does not accept as a hex digit' if dv is None else 'decodes as %d' % dv)
+                break
+            if b in rm.T or b in delim:
+                bad = 'alphabet entry %d (%s) is a terminator / delimiter byte for the reader' % (i, _ch(b))
+                break
+    R.check(bad is None, rule, key, site, bad)
+
+
 def _o3(fb, R, wm, rm):
     rule = 'O3-hex-alphabet'
     fn = wm.fn
@@ -469,78 +505,112 @@ def _o3(fb, R, wm, rm):
             delim = delim | D
     for (call, _S) in wm.E:
         _i, lit = _emitter_alphabet(wm, call)
-        key = '%s#alphabet#%s' % (WR, call['q'])
-        site = fn.loc(call['id'])
-        bad = None
-        if len(lit) < 16:
-            bad = 'alphabet %r has fewer than 16 entries' % lit
-        else:
-            for i in range(16):
-                b = ord(lit[i]) & 0xff
-                dv = rm.digit_value(b)
-                if dv != i:
-                    bad = 'alphabet entry %d is %s, which the reader %s' % (i, _ch(b), 'does not accept as a hex digit' if dv is None else 'decodes as %d' % dv)
-                    break
-                if b in rm.T or b in delim:
-                    bad = 'alphabet entry %d (%s) is a terminator / delimiter byte for the reader' % (i, _ch(b))
-                    break
-        R.check(bad is None, rule, key, site, bad)
+        _check_alphabet(R, rm, rule, '%s#alphabet#%s' % (WR, call['q']), fn.loc(call['id']), lit, delim)
+    inline_lits = sorted({string_literal(fn, fn.sn(n['args'][0])['base']) for n in wm.digits})
+    if len(inline_lits) > 1:
+        raise Broken('%s: inline digits use different alphabets' % WR)
+    for lit in inline_lits:
+        _check_alphabet(R, rm, rule, '%s#alphabet#inline' % WR, fn.loc(wm.digits[0]['id']), lit, delim)
     frame = rm.I | rm.T
     R.check(not (frame & delim), rule, '%s#frame-not-a-section-delimiter' % WR, fn.site,
             'escape frame byte %s also terminates a section / line in the reader' % _set_bytes(frame & delim))
 
 
 class DigitProgram(object):
-    """Digit emitter `f(out, value, alphabet)`: ordered list of (nibble shift k, guard set over value, node)."""
+    """The hex digits a function writes for a value: events (nibble shift k, guard set over the value, node, iteration)
+    for every `out += alphabet[<nibble k of value>]`, in execution order.  Counted loops are unrolled over the constant
+    values of their counter; the function may be a dedicated emitter `f(out, value, alphabet)` or the escaper itself
+    (digits written inline)."""
 
-    def __init__(self, fb, q, domain):
-        fn = self.fn = one(fb, q)
-        d_out = d_val = d_alpha = None
-        for p in fn.params:
-            tc = p['tC']
-            if 'basic_string' in tc and tc.endswith('&'):
-                d_out = p['d']
-            elif int_type(tc) is not None:
-                d_val = p['d']
-            elif tc.replace('const', '').replace(' ', '') == 'char*':
-                d_alpha = p['d']
-        if None in (d_out, d_val, d_alpha):
-            raise Broken('%s: parameters (std::string&, integer, const char*) not recognised' % q)
-        self.i_val = [p['d'] for p in fn.params].index(d_val)
-        self.i_alpha = [p['d'] for p in fn.params].index(d_alpha)
-        if fn.loops:
-            raise Broken('%s: loops in a digit emitter are not supported' % q)
-        if not never_modified(fn, d_val) or not never_modified(fn, d_alpha):
-            raise Broken('%s: value / alphabet parameter is modified' % q)
+    def __init__(self, fn, d_out, d_val, is_alphabet, domain, only=None):
+        self.fn = fn
+        q = fn.q
+        if not never_modified(fn, d_val):
+            raise Broken('%s: the value is modified while its digits are written' % q)
         res = unique_def_resolver(fn)
-        bits = Bits(fn, lambda f, x: 'v' if x.get('k') == 'var' and x.get('d') == d_val else None, {'v': 32}, res)
-        ev = []
+        writes = []
         for (n, kind) in string_out_calls(fn, d_out):
-            ok = False
-            if kind == 'member' and n.get('q') in STR_APPENDERS and len(n.get('args', [])) == 1:
-                ix = fn.sn(n['args'][0])
-                if ix is not None and ix.get('k') == 'index' and is_var(fn, ix['base'], d_alpha):
-                    vec = bits.eval(ix['idx'])
-                    k = next((kk for kk in range(0, 64, 4) if vec == field_vec('v', kk, 4)), None)
-                    if k is None:
-                        raise Broken('%s: index %s is not one nibble of the value' % (q, fn.expr(ix['idx'])))
-                    G = var_guard_set(fn, n['id'], d_val, domain, res)
-                    ev.append((k, G, n))
-                    ok = True
-            if not ok:
+            if only is not None and n['id'] not in only:
+                continue
+            ix = fn.sn(n['args'][0]) if (kind == 'member' and n.get('q') in STR_APPENDERS and len(n.get('args', [])) == 1) else None
+            if ix is None or ix.get('k') != 'index' or not is_alphabet(fn, ix['base']):
                 raise Broken('%s: unrecognised write to the output string: %s' % (q, fn.expr(n['id'])))
-        if not ev:
+            writes.append((n, ix))
+        if not writes:
             raise Broken('%s: no digit is written' % q)
-        # total order by CFG reachability
-        def before(a, b):
-            return path_search(fn, a['id'], lambda e: e == b['id'], lambda e: False) is not None
-        for i in range(len(ev)):
-            for j in range(i + 1, len(ev)):
-                ab, ba = before(ev[i][2], ev[j][2]), before(ev[j][2], ev[i][2])
-                if ab == ba:
-                    raise Broken('%s: digit writes are not totally ordered' % q)
-        ev.sort(key=functools.cmp_to_key(lambda x, y: -1 if before(x[2], y[2]) else 1))
+        loops = {}
+        for (n, _ix) in writes:
+            ls = [l for l in fn.loops if fn.in_range(n['id'], l['b'], l['e'])]
+            if len(ls) > 1:
+                raise Broken('%s: digit written inside nested loops' % q)
+            if ls and only is None:
+                key = (ls[0]['b'], ls[0]['e'])
+                if key not in loops:
+                    d_i, vals, upd = loop_iterations(fn, ls[0])
+                    loops[key] = (d_i, vals, upd)
+        ev = []
+        for (n, ix) in writes:
+            ls = [l for l in fn.loops if fn.in_range(n['id'], l['b'], l['e'])] if only is None else []
+            if ls:
+                key = (ls[0]['b'], ls[0]['e'])
+                d_i, vals, upd = loops[key]
+                if forward_reach(fn, upd, n['id']):
+                    raise Broken('%s: the loop counter is updated before a digit of the same iteration is written' % q)
+                its = [(key, i, {d_i: v}) for i, v in enumerate(vals)]
+            else:
+                its = [(None, 0, {})]
+            for (lkey, i, consts) in its:
+                env = {d: Bits.const_vec(v) for d, v in consts.items()}
+                bits = Bits(fn, lambda f, x: 'v' if x.get('k') == 'var' and x.get('d') == d_val else None, {'v': 32}, res, env=env)
+                vec = bits.eval(ix['idx'])
+                k = next((kk for kk in range(0, 64, 4) if vec == field_vec('v', kk, 4)), None)
+                if k is None:
+                    raise Broken('%s: index %s is not one nibble of the value' % (q, fn.expr(ix['idx'])))
+                G = var_guard_set(fn, n['id'], d_val, domain, res, consts=consts)
+                ev.append((k, G, n, (lkey, i)))
+
+        def before(x, y):
+            (lx, ix_), (ly, iy) = x[3], y[3]
+            if lx is not None and lx == ly and ix_ != iy:
+                return ix_ < iy
+            return forward_reach(fn, x[2]['id'], y[2]['id'])
+        self.before = before
+        # execution order (events on exclusive paths keep their textual order)
+        ev.sort(key=functools.cmp_to_key(lambda x, y: -1 if before(x, y) else (1 if before(y, x) else (x[2].get('o', 0) > y[2].get('o', 0)) - (x[2].get('o', 0) < y[2].get('o', 0)))))
         self.events = ev
+
+    def order_violation(self, V):
+        """two digits that can both be written for one value, the earlier one not more significant than the later one"""
+        ev = self.events
+        for i in range(len(ev)):
+            for j in range(len(ev)):
+                if i != j and self.before(ev[i], ev[j]) and ev[i][0] <= ev[j][0]:
+                    both = ev[i][1] & ev[j][1] & V
+                    if both:
+                        return ev[i][0], ev[j][0], both
+        return None
+
+
+def emitter_program(fb, q, domain):
+    """DigitProgram of a dedicated emitter `f(std::string& out, integer value, const char* alphabet)`"""
+    fn = one(fb, q)
+    d_out = d_val = d_alpha = None
+    for p in fn.params:
+        tc = p['tC']
+        if 'basic_string' in tc and tc.endswith('&'):
+            d_out = p['d']
+        elif int_type(tc) is not None:
+            d_val = p['d']
+        elif tc.replace('const', '').replace(' ', '') == 'char*':
+            d_alpha = p['d']
+    if None in (d_out, d_val, d_alpha):
+        raise Broken('%s: parameters (std::string&, integer, const char*) not recognised' % q)
+    if not never_modified(fn, d_alpha):
+        raise Broken('%s: alphabet parameter is modified' % q)
+    dp = DigitProgram(fn, d_out, d_val, lambda f, base: is_var(f, base, d_alpha), domain)
+    dp.i_val = [p['d'] for p in fn.params].index(d_val)
+    dp.i_alpha = [p['d'] for p in fn.params].index(d_alpha)
+    return dp
 
 
 def _nibble_zero(k, V):
@@ -558,52 +628,65 @@ def _nibble_zero(k, V):
 
 
 def _o4_o5(fb, R, wm, rm):
-    rule = 'O4-hex-digits-positional'
     maxd, iters = rm.max_digits()
     for (call, V) in wm.E:
         q = call['q']
-        dp = DigitProgram(fb, q, V)
-        fn = dp.fn
+        dp = emitter_program(fb, q, V)
         # the value argument is the code point, the alphabet argument is the literal
         if not is_var(wm.fn, call['args'][dp.i_val], wm.d_c):
             raise Broken('%s: value argument of %s is not the decoded code point' % (WR, q))
         ai, _lit = _emitter_alphabet(wm, call)
         if ai != dp.i_alpha:
             raise Broken('%s: alphabet literal is not passed as the alphabet parameter of %s' % (WR, q))
-        ks = [k for (k, _g, _n) in dp.events]
-        okorder = all(ks[i] > ks[i + 1] for i in range(len(ks) - 1))
-        R.check(okorder, rule, '%s#order' % q, fn.site,
-                'digits are written for nibble shifts %s in this order; a numeral needs strictly descending significance' % ks, detail='reaching set %s' % V.fmt())
-        G = {}
-        N = {}
-        for (k, g, n) in dp.events:
-            G[k] = G.get(k, EMPTY) | g
-            N.setdefault(k, n)
-        # every nibble position that a reaching value can occupy, or that the emitter writes
-        topbit = max(V.max().bit_length() - 1, 0) if V else 0
-        K = list(range(max(max(ks), (topbit // 4) * 4), -1, -4))
+        _check_numeral(R, dp, V, q, wm.fn.loc(call['id']), maxd, iters)
+    if wm.digits:
+        V = EMPTY
+        res = unique_def_resolver(wm.fn)
+        callee = make_callee_summary(fb)
+        for n in wm.digits:
+            V = V | var_guard_set(wm.fn, n['id'], wm.d_c, CODEPOINTS, res, callee)
+        dp = DigitProgram(wm.fn, wm.d_out, wm.d_c, lambda f, base: string_literal(f, base) is not None, V, only={n['id'] for n in wm.digits})
+        _check_numeral(R, dp, V, WR, wm.fn.loc(wm.digits[0]['id']), maxd, iters)
 
-        def site_of(k):
-            return fn.loc(N[k]['id']) if k in N else fn.site
-        for k in K:
-            dropped_nonzero = (V - G.get(k, EMPTY)) - _nibble_zero(k, V)
-            R.check(not dropped_nonzero, rule, '%s#nibble%d-dropped-only-if-zero' % (q, k), site_of(k),
-                    'the digit for bits %d..%d is not written although it is non-zero, e.g. for U+%04X (values reaching this emitter: %s)'
-                    % (k, k + 3, dropped_nonzero.min() if dropped_nonzero else 0, V.fmt()))
-        for k in K[1:]:
-            hole = (G.get(k + 4, EMPTY) & V) - G.get(k, EMPTY)
-            R.check(not hole, rule, '%s#nibble%d-written-whenever-nibble%d-is' % (q, k, k + 4), site_of(k),
-                    'for %s the digit for bits %d..%d is written but the (zero) digit for bits %d..%d is dropped: the numeral loses a '
-                    'place and the reader decodes a different code point (first: U+%04X is written like U+%04X)'
-                    % (hole.fmt(), k + 4, k + 7, k, k + 3, hole.min() if hole else 0, _collapse(hole.min(), k) if hole else 0))
-        some = any(V.issubset(G[k]) for k in G)
-        R.check(some, rule, '%s#at-least-one-digit' % q, fn.site, 'no digit is written unconditionally: an empty numeral is possible')
-        # O5: longest numeral
-        written = [k for k in G if G[k] & V]
-        longest = (max(written) // 4 + 1) if written else 0
-        R.check(longest <= maxd, 'O5-hex-length-within-reader-limit', '%s#via#%s' % (WR, q), wm.fn.loc(call['id']),
-                '%s writes up to %d hex digits for %s but %s accepts at most %d digits before the terminator (%d loop iterations, one is needed '
-                'for the terminator)' % (q, longest, V.fmt(), PESC, maxd, iters), detail='longest=%d reader limit=%d' % (longest, maxd))
+
+def _check_numeral(R, dp, V, q, call_site, maxd, iters):
+    rule = 'O4-hex-digits-positional'
+    fn = dp.fn
+    ks = [k for (k, _g, _n, _i) in dp.events]
+    viol = dp.order_violation(V)
+    R.check(viol is None, rule, '%s#order' % q, fn.site,
+            'the digit for nibble shift %s is written before the digit for nibble shift %s (e.g. for U+%04X; all writes: %s); a numeral needs '
+            'strictly descending significance' % (viol[0] if viol else '', viol[1] if viol else '', viol[2].min() if viol else 0, ks), detail='reaching set %s' % V.fmt())
+    G = {}
+    N = {}
+    for (k, g, n, _i) in dp.events:
+        G[k] = G.get(k, EMPTY) | g
+        N.setdefault(k, n)
+    # every nibble position that a reaching value can occupy, or that the emitter writes
+    topbit = max(V.max().bit_length() - 1, 0) if V else 0
+    K = list(range(max(max(ks), (topbit // 4) * 4), -1, -4))
+
+    def site_of(k):
+        return fn.loc(N[k]['id']) if k in N else fn.site
+    for k in K:
+        dropped_nonzero = (V - G.get(k, EMPTY)) - _nibble_zero(k, V)
+        R.check(not dropped_nonzero, rule, '%s#nibble%d-dropped-only-if-zero' % (q, k), site_of(k),
+                'the digit for bits %d..%d is not written although it is non-zero, e.g. for U+%04X (values reaching this emitter: %s)'
+                % (k, k + 3, dropped_nonzero.min() if dropped_nonzero else 0, V.fmt()))
+    for k in K[1:]:
+        hole = (G.get(k + 4, EMPTY) & V) - G.get(k, EMPTY)
+        R.check(not hole, rule, '%s#nibble%d-written-whenever-nibble%d-is' % (q, k, k + 4), site_of(k),
+                'for %s the digit for bits %d..%d is written but the (zero) digit for bits %d..%d is dropped: the numeral loses a '
+                'place and the reader decodes a different code point (first: U+%04X is written like U+%04X)'
+                % (hole.fmt(), k + 4, k + 7, k, k + 3, hole.min() if hole else 0, _collapse(hole.min(), k) if hole else 0))
+    some = any(V.issubset(G[k]) for k in G)
+    R.check(some, rule, '%s#at-least-one-digit' % q, fn.site, 'no digit is written unconditionally: an empty numeral is possible')
+    # O5: longest numeral
+    written = [k for k in G if G[k] & V]
+    longest = (max(written) // 4 + 1) if written else 0
+    R.check(longest <= maxd, 'O5-hex-length-within-reader-limit', '%s#via#%s' % (WR, q), call_site,
+            '%s writes up to %d hex digits for %s but %s accepts at most %d digits before the terminator (%d loop iterations, one is needed '
+            'for the terminator)' % (q, longest, V.fmt(), PESC, maxd, iters), detail='longest=%d reader limit=%d' % (longest, maxd))
 
 
 def _collapse(v, k):
@@ -1035,82 +1118,82 @@ def _xml_reference_value(lit):
 
 
 def _x1_table(fb, R):
+    """Decided on the byte sets of the writes, not on the statement form: for every byte value b the dataflow gives
+    the writes to `out` that run in an iteration in which the byte under the cursor is b (switch, if-chain, named copy
+    of the byte, early continue are all the same to it)."""
     rule = 'X1-xml-entity-table'
     fn = one(fb, XMLENC)
     d_out = next((p['d'] for p in fn.params if 'basic_string' in p['tC'] and p['tC'].endswith('&')), None)
-    d_data = next((p['d'] for p in fn.params if p['tC'].replace(' ', '') == 'constchar*'), None)
-    if d_out is None or d_data is None:
+    if d_out is None:
         raise Broken('%s: parameters not recognised' % XMLENC)
-    sw = [b for b in fn.blocks.values() if b.get('termcls') == 'SwitchStmt']
-    if len(sw) != 1:
-        raise Broken('%s: expected exactly one switch' % XMLENC)
-    sw = sw[0]
-    reads = char_reads(fn, sw['cond'])
-    sc = fn.sn(sw['cond'])
-    if len(reads) != 1 or sc is None or sc.get('k') != 'unop' or sc['op'] != '*' or not is_var(fn, sc['sub'], d_data):
-        raise Broken('%s: the switch is not over the byte under the cursor' % XMLENC)
-    text = list(reads)[0]
-    writes = {n['id']: n for (n, kind) in string_out_calls(fn, d_out)}
-    cases, default = {}, None
-    for s in sw['succs']:
-        if s is None:
-            continue
-        lab = fn.blocks[s].get('label', {})
-        if 'case' in lab:
-            v = fn.const_value(lab['case'])
-            if v is None:
-                raise Broken('%s: non-constant case label' % XMLENC)
-            cases[v & 0xff] = s
-        elif lab.get('default'):
-            default = s
+    def classify(text):
+        lits, copies = [], []
+        for (n, kind) in string_out_calls(fn, d_out):
+            args = n.get('args', [])
+            if kind != 'member' or n.get('q') not in STR_APPENDERS or len(args) != 1:
+                raise Broken('%s: unrecognised write to the output string: %s' % (XMLENC, fn.expr(n['id'])))
+            S, _u = char_guard_set(fn, n['id'], text)
+            lit = string_literal(fn, args[0])
+            if lit is not None:
+                lits.append((n, S, lit))
+            elif is_current_char(fn, args[0], n['id'], text):
+                copies.append((n, S))
+            elif derived_helper(fn, args[0], n['id'], text) is not None:
+                # `const char* e = entity_for(c); if (e) out += e;` -- the helper's returns are the replacement table
+                hs, hu = (helper_returns(derived_helper(fn, args[0], n['id'], text), sg) for sg in (True, False))
+                if hs != hu:
+                    raise Broken('%s: helper table depends on the signedness of plain char' % XMLENC)
+                for (Sr, kind2, lit2) in hs:
+                    if not (S & Sr):
+                        continue
+                    if kind2 != 'lit':
+                        raise Broken('%s: a helper result that is not a string literal is appended for %s' % (XMLENC, (S & Sr).fmt()))
+                    lits.append((n, S & Sr, lit2))
+            else:
+                raise Broken('%s: write of something that is neither a literal nor the byte being processed: %s' % (XMLENC, fn.expr(n['id'])))
+        if not lits or not copies:
+            raise Broken('%s: expected replacement literals and a verbatim copy (found %d/%d)' % (XMLENC, len(lits), len(copies)))
+        return lits, copies
+    # the byte processed in one iteration: the byte under the cursor, or a local that took it (`const char c = *data++;`)
+    text = cursor_text(fn)
+    try:
+        lits, copies = classify(text)
+    except Broken as first:
+        names = sorted(input_byte_locals(fn, text))
+        if len(names) != 1:
+            raise first
+        lits, copies = classify(names[0])
+
+    def check_byte(ch, key):
+        ws = [(n, S, lit) for (n, S, lit) in lits if ch in S]
+        cs = [(n, S) for (n, S) in copies if ch in S]
+        site = fn.loc(ws[0][0]['id']) if ws else (fn.loc(cs[0][0]['id']) if cs else fn.site)
+        if cs:
+            R.bad(rule, key, site, 'no replacement for %s: the character is copied unescaped into XML attribute values / text' % _ch(ch))
+        elif len(ws) != 1:
+            R.bad(rule, key, site, 'for %s %d replacement literals are appended in one iteration (%s); exactly one is needed (fall-through?)'
+                  % (_ch(ch), len(ws), ', '.join(repr(w[2]) for w in ws)))
         else:
-            raise Broken('%s: switch successor without label (no default?)' % XMLENC)
-
-    def block_writes(b):
-        """writes executed from block b until control leaves the switch (follows fall-through)."""
-        out = []
-        seen = set()
-        while b is not None and b not in seen:
-            seen.add(b)
-            blk = fn.blocks[b]
-            out.extend(writes[e] for e in blk['elems'] if e in writes)
-            if blk.get('termcls') == 'BreakStmt' or len(fn.succs(b)) != 1:
-                break
-            nxt = fn.succs(b)[0]
-            if 'label' not in fn.blocks[nxt]:
-                break
-            b = nxt
-        return out
-    for ch, name in sorted(XML_STRUCTURAL.items()):
-        key = '%s#case:%s' % (XMLENC, _ch(ch))
-        if ch not in cases:
-            R.bad(rule, key, fn.loc(sw['term']) if 'term' in sw and sw['term'] in fn.nodes else fn.site,
-                  'no case for %s: the character is copied unescaped into XML attribute values / text' % _ch(ch))
-            continue
-        _check_case(fn, R, rule, key, ch, block_writes(cases[ch]))
-    for ch in sorted(set(cases) - set(XML_STRUCTURAL)):
-        _check_case(fn, R, rule, '%s#case:%s' % (XMLENC, _ch(ch)), ch, block_writes(cases[ch]))
-    # default copies the byte
-    okd = False
-    if default is not None:
-        ws = block_writes(default)
-        if len(ws) == 1 and ws[0].get('q') in STR_APPENDERS and len(ws[0].get('args', [])) == 1:
-            a = fn.sn(ws[0]['args'][0])
-            okd = a is not None and a.get('k') == 'unop' and a['op'] == '*' and fn.expr(a['id']) == text
-    R.check(okd, rule, XMLENC + '#default-copies', fn.site, 'the default branch must append exactly the byte under the cursor')
-
-
-def _check_case(fn, R, rule, key, ch, ws):
-    site = fn.loc(ws[0]['id']) if ws else fn.site
-    if len(ws) != 1 or ws[0].get('q') not in STR_APPENDERS or len(ws[0].get('args', [])) != 1:
-        R.bad(rule, key, site, 'the case for %s must append exactly one replacement literal (found %d writes; fall-through?)' % (_ch(ch), len(ws)))
-        return
-    lit = string_literal(fn, ws[0]['args'][0], resolve_locals=False)
-    if lit is None:
-        R.bad(rule, key, site, 'the case for %s does not append a string literal' % _ch(ch))
-        return
-    v = _xml_reference_value(lit)
-    R.check(v == ch, rule, key, site, 'the case for %s appends %r, which %s' % (_ch(ch), lit, 'is not a well-formed XML reference' if v is None else 'denotes %s' % _ch(v)))
+            v = _xml_reference_value(ws[0][2])
+            R.check(v == ch, rule, key, site, 'for %s the literal %r is appended, which %s'
+                    % (_ch(ch), ws[0][2], 'is not a well-formed XML reference' if v is None else 'denotes %s' % _ch(v)))
+    for ch in sorted(XML_STRUCTURAL):
+        check_byte(ch, '%s#case:%s' % (XMLENC, _ch(ch)))
+    replaced = EMPTY
+    for (_n, S, _l) in lits:
+        replaced = replaced | S
+    for ch in (replaced - ISet.of(*XML_STRUCTURAL)).values(300):
+        if ch != 0:
+            check_byte(ch, '%s#case:%s' % (XMLENC, _ch(ch)))
+    # every other non-NUL byte is copied exactly once
+    rest = ISet.span(1, 255) - replaced
+    bad = None
+    for b in rest.values(300):
+        k = sum(1 for (_n, S) in copies if b in S)
+        if k != 1:
+            bad = 'byte %s is copied %d times per iteration' % (_ch(b), k)
+            break
+    R.check(bad is None, rule, XMLENC + '#default-copies', fn.loc(copies[0][0]['id']), bad)
 
 
 # ================================================================================================ who-must-call
@@ -1351,6 +1434,7 @@ def _advance_role(fn, m, S):
 # ================================================================================================ driver
 
 def all_rules(fb, R):
+    set_fact_base(fb)
     opl_writer_rules(fb, R)
     utf8_rules(fb, R)
     xml_rules(fb, R)
